@@ -67,20 +67,20 @@ def subpixel_pcc(
             )
         )
 
-        _lshift = (shifts + _max_shifts) * upsample_factor
-        _rshift = (_max_shifts - shifts) * upsample_factor
-        power = crop_by_max_shifts(
-            power, _lshift.astype(np.int32), _rshift.astype(np.int32), backend
+        # NOTE: zero shift is at index `dftshift` of the upsampled region (not in the
+        # FFT layout). Crop the region so that the total shift is within max_shifts.
+        _lshift = ((shifts + _max_shifts) * upsample_factor).astype(np.int32)
+        _rshift = ((_max_shifts - shifts) * upsample_factor).astype(np.int32)
+        _center = int(dftshift)
+        _starts = np.maximum(_center - _lshift, 0)
+        _stops = np.minimum(_center + _rshift + 1, upsampled_region_size)
+        power = power[tuple(slice(int(s0), int(s1)) for s0, s1 in zip(_starts, _stops))]
+        _argmax = backend.asnumpy(
+            backend.unravel_index(backend.argmax(power), power.shape)
         )
-
-        maxima = (
-            backend.asnumpy(
-                backend.unravel_index(backend.argmax(power), power.shape)
-            ).astype(np.float32)
-            - dftshift
-        )
+        maxima = _argmax.astype(np.float32) + _starts.astype(np.float32) - dftshift
         shifts = shifts + maxima / upsample_factor
-        pcc = math.sqrt(backend.asnumpy(power[tuple(int(round(m)) for m in maxima)]))
+        pcc = math.sqrt(backend.asnumpy(power[tuple(int(i) for i in _argmax)]))
     else:
         pcc = math.sqrt(backend.asnumpy(power[tuple(maxima)]))
     return shifts, pcc
